@@ -279,6 +279,24 @@ def xorU (a b : Int) : Int := ((a.toNat ^^^ b.toNat : Nat) : Int)
 def shlU (a k : Int) : Int := (a * 2 ^ k.toNat) % 18446744073709551616
 def shrU (a k : Int) : Int := a / 2 ^ k.toNat
 
+/-- `big.Rat.Cmp` (and the meaning of `compareReals` on exact values): the sign of `a - b` -/
+def cmpRat (a b : Rat) : Int := if a < b then -1 else if a = b then 0 else 1
+
+/-- the loop of `<`, `<=`, `>`, `>=` (pkg/cl/lt.go …): `target := args[0]; for _, arg := range args[1:] { BODY }; return t`
+    where BODY either fails the chain (`return nil`) or yields the next target -/
+def goChain (body : Rat → Rat → Option Rat) : Rat → List Rat → Bool
+  | _, [] => true
+  | t, a :: rest =>
+    match body t a with
+    | none => false
+    | some t' => goChain body t' rest
+
+/-- the loop of `=` (pkg/cl/same.go): from the last argument down, `target = same(args[pos], target)` -/
+def goSame (same : Rat → Rat → Option Rat) (xs : List Rat) : Bool :=
+  match xs.reverse with
+  | [] => true
+  | t :: more => goChain (fun t x => same x t) t more
+
 /-- `canonicalNumber` on an exact integer result: a bignum object that fits becomes a fixnum -/
 def canonNumber : Rep → Rep
   | .big i => canonInt i
